@@ -43,9 +43,9 @@ def canon(x):
     """nested lists with NaN made comparable"""
     if isinstance(x, (list, tuple)):
         return [canon(v) for v in x]
-    if isinstance(x, float) and math.isnan(x):
-        return 'nan'
-    if isinstance(x, (float, np.floating)) and float(x) == int(x) and math.isfinite(x):
+    if isinstance(x, (float, np.floating)) and not math.isfinite(x):
+        return repr(float(x))
+    if isinstance(x, (float, np.floating)) and float(x) == int(x):
         return int(x)
     if isinstance(x, np.generic):
         return canon(x.item())
